@@ -18,6 +18,19 @@ using vf::fmt;
 static vf::Ctx* C;
 static string g_dir;  // per-shard scratch directory (relative to the driver-provided cwd)
 
+// While a prior-history mini-workload runs (part "priors", c14_priors.hh) these name the prior; violations raised through
+// VIOL() then carry the prior's family in the key (<op>:prior-history:<family>:<rest>) and its name in the case text.
+static string g_prior_fam, g_prior_name;
+static void VIOL(const string& key, const string& what, const string& kase) {
+  if (g_prior_fam.empty()) {
+    C->violation(key, what, kase);
+    return;
+  }
+  size_t c = key.find(':');
+  C->violation(key.substr(0, c) + ":prior-history:" + g_prior_fam + (c == string::npos ? string() : key.substr(c)), what,
+      "on a fresh thread after prior [" + g_prior_name + "]: " + kase);
+}
+
 // Deterministic payload of n bytes without NUL and without '\n' (so zero padding and line
 // structure are unambiguous); position-dependent so that shifted/duplicated data differs.
 static string det_payload(size_t n, unsigned salt = 0) {
@@ -94,7 +107,7 @@ static bool judge(const char* op, const char* kind, const string& shape, const s
   if (o.got.size() < expect.size() && expect.compare(0, o.got.size(), o.got) == 0) how = "truncated";
   else if (o.got.size() > expect.size() && o.got.compare(0, expect.size(), expect) == 0) how = "padded";
   else how = "wrong-bytes";
-  C->violation(fmt("%s:%s:%s", op, how, kind),
+  VIOL(fmt("%s:%s:%s", op, how, kind),
       fmt("%s returned %zu bytes without throwing, the source delivers %zu bytes (%s)", op, o.got.size(), expect.size(), how),
       kase() + fmt(" -> got %zu bytes, expected %zu", o.got.size(), expect.size()));
   return false;
